@@ -93,6 +93,7 @@ func (propC06) Gen(r *Rng, tier string) *World {
 	if r.P(0.5) {
 		k.FailOp = true
 	}
+	k.RawConsts = r.P(0.3)
 	g := NewGen(r, k)
 	w := &World{Prop: "C06"}
 	if r.P(0.03) && len(g.by[TBool]) > 0 {
